@@ -511,6 +511,41 @@ func buildIdioms() []idiom {
 		}
 		addN("nested-foreign-pointer-calla", a.op(opcode.CALLA).op(opcode.PUSHINT64, hostileData...).op(opcode.PUSHINT128, append(hostileData, hostileData...)...), ptrSub)
 	}
+	// --- the last reference to a cyclic container disappears inside a collection instruction
+	selfMap := func() *asm {
+		return newAsm().ops(opcode.NEWMAP, opcode.DUP, opcode.PUSHF, opcode.PUSH2, opcode.PICK, opcode.SETITEM)
+	} // M = {false: M}, one copy on the stack
+	viaArr := func() *asm {
+		return newAsm().ops(opcode.NEWMAP, opcode.DUP, opcode.PUSH1, opcode.PUSH2, opcode.PICK, opcode.PUSH1, opcode.PACK, opcode.SETITEM)
+	} // M = {1: [M]}
+	add("cycle-last-ref-map-remove", selfMap().ops(opcode.PUSHF, opcode.REMOVE, opcode.DEPTH))
+	add("cycle-last-ref-map-remove-indirect", viaArr().ops(opcode.PUSH1, opcode.REMOVE, opcode.DEPTH))
+	add("cycle-last-ref-map-remove-other-key", selfMap().ops(opcode.DUP, opcode.PUSH5, opcode.PUSH6, opcode.SETITEM, opcode.PUSH5, opcode.REMOVE, opcode.DEPTH))
+	add("cycle-last-ref-map-setitem", selfMap().ops(opcode.PUSHF, opcode.PUSH7, opcode.SETITEM, opcode.DEPTH))
+	add("cycle-last-ref-map-setitem-indirect", viaArr().ops(opcode.PUSH1, opcode.NEWARRAY0, opcode.SETITEM, opcode.DEPTH))
+	add("cycle-last-ref-map-clearitems", selfMap().ops(opcode.CLEARITEMS, opcode.DEPTH))
+	add("cycle-last-ref-map-values", selfMap().ops(opcode.VALUES, opcode.DROP, opcode.DEPTH))
+	add("cycle-last-ref-map-unpack", selfMap().ops(opcode.UNPACK, opcode.CLEAR, opcode.DEPTH))
+	add("cycle-last-ref-map-keys", selfMap().ops(opcode.KEYS, opcode.DROP, opcode.DEPTH))
+	selfArr := func(o opcode.Opcode) *asm {
+		return newAsm().op(o).ops(opcode.DUP, opcode.PUSH3, opcode.APPEND, opcode.DUP, opcode.DUP, opcode.APPEND)
+	} // A = [3, A]
+	for _, o := range []opcode.Opcode{opcode.NEWARRAY0, opcode.NEWSTRUCT0} {
+		add("cycle-last-ref-array-remove", selfArr(o).ops(opcode.PUSH1, opcode.REMOVE, opcode.DEPTH))
+		add("cycle-last-ref-array-remove-other", selfArr(o).ops(opcode.PUSH0, opcode.REMOVE, opcode.DEPTH))
+		add("cycle-last-ref-array-setitem", selfArr(o).ops(opcode.PUSH1, opcode.PUSH7, opcode.SETITEM, opcode.DEPTH))
+		add("cycle-last-ref-array-popitem", selfArr(o).ops(opcode.POPITEM, opcode.DROP, opcode.DEPTH))
+		add("cycle-last-ref-array-clearitems", selfArr(o).ops(opcode.CLEARITEMS, opcode.DEPTH))
+		add("cycle-last-ref-array-unpack", selfArr(o).ops(opcode.UNPACK, opcode.CLEAR, opcode.DEPTH))
+		add("cycle-last-ref-array-values", selfArr(o).ops(opcode.VALUES, opcode.DROP, opcode.DEPTH))
+		add("cycle-last-ref-array-reverse", selfArr(o).ops(opcode.REVERSEITEMS, opcode.DEPTH))
+	}
+	// driving the counter down and then exceeding the item limit
+	add("cycle-last-ref-map-remove-loop-then-fill", newAsm().op(opcode.INITSSLOT, 1).push(3000).op(opcode.STSFLD0).label("L").
+		ops(opcode.NEWMAP, opcode.DUP, opcode.PUSHF, opcode.PUSH2, opcode.PICK, opcode.SETITEM, opcode.PUSHF, opcode.REMOVE).
+		ops(opcode.LDSFLD0, opcode.DEC, opcode.DUP, opcode.STSFLD0, opcode.PUSH0).jmp(opcode.JMPGT, "L").
+		push(2040).op(opcode.NEWARRAY).push(2040).op(opcode.NEWARRAY).ops(opcode.UNPACK))
+
 	addN("nested-recursive-load", newAsm().load(0, ldFlags, 0), mkSub(newAsm().load(0, ldFlags, 0), 0))
 	return l
 }
